@@ -543,7 +543,7 @@ func checkC06(rc *Run) error {
 		*b = nil
 	}
 	for i, c := range cases {
-		if i%nsh != shard {
+		if !inShard(i, nsh, shard) {
 			continue
 		}
 		for rot := 0; rot < rc.Pick(1, 4); rot++ {
@@ -735,7 +735,7 @@ func checkC06Aliases(rc *Run) error {
 		}(w)
 	}
 	for i := range vecs {
-		if i%nsh == shard {
+		if inShard(i, nsh, shard) {
 			jobs <- i
 		}
 	}
